@@ -235,6 +235,28 @@ Example C03_maplog_versions_example :
 Proof. exact vmaplog_example. Qed.
 Print Assumptions C03_maplog_versions_example.
 
+(* ... and with any number of restarts between the mutations (vseg_go: each restart replaces the live
+   family by the replayed logs): the same logs and, version by version, the same labels and split
+   records as the uninterrupted run of all the mutations (vsame); what a client reads through any
+   ancestry is then the same (C03_maplog_vsame_observable). *)
+Theorem C03_maplog_restarts_interleaved : forall ancs segs,
+  forallb (fun ops => forallb (fun vo => op_ok (snd vo)) ops) segs = true ->
+  vsame (vseg_go false ancs ([], []) segs) (vrun false ancs ([], []) (concat segs)).
+Proof. exact vsegs_refine_init. Qed.
+Print Assumptions C03_maplog_restarts_interleaved.
+
+Theorem C03_maplog_vsame_observable : forall a b anc, vsame a b ->
+  (forall sv, vmapped (fst a) anc sv = vmapped (fst b) anc sv) /\ vsplits (fst a) anc = vsplits (fst b) anc.
+Proof. exact vsame_obs. Qed.
+Print Assumptions C03_maplog_vsame_observable.
+
+Example C03_maplog_restarts_example :
+  forallb (fun ops => forallb (fun vo => op_ok (snd vo)) ops) vx_segs = true /\ concat vx_segs = vx_ops /\
+  vsplits (fst (vseg_go false vx_ancs ([], []) vx_segs)) [4; 2; 1] = [(9, 12, 23, 24); (7, 11, 21, 22)] /\
+  map (vmapped (fst (vseg_go false vx_ancs ([], []) vx_segs)) [3; 2; 1]) [11; 12; 21; 22; 23] = [0; 30; 10; 10; 23].
+Proof. exact vsegs_example. Qed.
+Print Assumptions C03_maplog_restarts_example.
+
 (* ---- reloaded label maxima ---- *)
 Theorem C03_maxlabel_reload : forall s, l_pmaxrepo s = Some (l_maxrepo s) ->
   (forall v x, In (v, x) (l_pmaxv s) -> x <= l_maxrepo s) ->
